@@ -93,3 +93,47 @@ func VerifC14_limit() {
 	verifrt.Assert(err != nil, "C14.limit.hashed")
 	verifrt.Reach("C14.limit.end")
 }
+
+const c14PrivN = "d14cc535d495933ee03b05d048e7b74be6ca2078576f445ebaa46e51b254e7fa359c9e22e58063f03f506655998b929d9bceed14aec65cccbfc26e518c93fba5637034cc28cc6d0da1f57a228084458e800c23b122ed2235fb833fde7d44e393ec5bc66e9dfdac64ca44051fd6e774e34bc233ad02f1a6cf7f8bcee82636e44d01a5138f79eaa8e96db98a1721c2118dc38b2ecff698f24cfa8a7fafce11c26c676afa4e163fec4634b226d8656a998f909172d533c9194fe98ca6068cf2d9e2bb393a549682386fe931524d037fbf0a5f50897a3f7a200a7ced9bd856b2d7c59ba0f1fee41cfa791c96ca4234051b0f20c03303523bda68929af07169e64511"
+const c14PrivD = "b97402d25dd9632d3556572265571c2d1f043e9d232c2e3299c29515c2a44520895c8b2a749cbcf0e5c901c41b5776c43c88afbdc1d775e6de8b136122e504f75912d555895909d0288ff0769dd596245c0565a2d145b92888019618387b5003844d1598725991e584eb9c76c7df32cd2c1599e0555975eb2a22e16506676105d79555400356758afc0416abeba00e33c38eccc92d4d399bc8770579d35842b9e0f3174dd4ceecfe2624f6a88aafaffa986ebec8b84313eb98a95c09fb28e436416c167169fec13bedc2a655533c896478b77d754fe3010994a132194f99cd0a465834a9ad6dffb6fb05e67fbfb53ac53e1bc2857437c6cbb7326831c2cecc01"
+
+// VerifC14_accept: the decoder's acceptance predicate. An arbitrary 2048-bit value X below the
+// modulus is RSA-encrypted under a real test key and handed to DecodeRSAPad with the matching
+// private key (so the decoder sees exactly X after the RSA step). Reference, from the
+// specification: temp_key = X[:32] xor SHA256(X[32:]); data_with_hash = AES256_IGE_decrypt(X[32:],
+// temp_key, iv 0); accept iff its last 32 bytes equal SHA256(temp_key || reverse(first 192 bytes)),
+// and then the result is that reversed prefix. Claim: DecodeRSAPad accepts exactly then — in
+// particular a ciphertext that was not produced by RSA_PAD for this key (altered, or made for
+// another key) is refused unless it happens to satisfy the hash equation.
+func VerifC14_accept() {
+	n, _ := new(big.Int).SetString(c14PrivN, 16)
+	d, _ := new(big.Int).SetString(c14PrivD, 16)
+	priv := &rsa.PrivateKey{PublicKey: rsa.PublicKey{N: n, E: 65537}, D: d}
+	x := verifrt.NondetBytes("x", 256)
+	verifrt.Assume(new(big.Int).SetBytes(x).Cmp(n) < 0)
+	ct := rsaEncrypt(x, &priv.PublicKey)
+	dec, err := DecodeRSAPad(ct, priv)
+	// reference
+	h1 := sha256.Sum256(x[32:])
+	tempKey := make([]byte, 32)
+	for i := range tempKey {
+		tempKey[i] = x[i] ^ h1[i]
+	}
+	dwh := make([]byte, 224)
+	blk, _ := newAES(tempKey)
+	var iv [32]byte
+	ige.DecryptBlocks(blk, iv[:], dwh, x[32:])
+	dwp := make([]byte, 192)
+	for i := range dwp {
+		dwp[i] = dwh[191-i]
+	}
+	h2 := sha256.Sum256(append(append([]byte{}, tempKey...), dwp...))
+	ok := string(dwh[192:]) == string(h2[:])
+	verifrt.Assert((err == nil) == ok, "C14.accept.predicate")
+	if err == nil {
+		verifrt.Assert(string(dec) == string(dwp), "C14.accept.result")
+		verifrt.Reach("C14.accept.accepted")
+	} else {
+		verifrt.Reach("C14.accept.rejected")
+	}
+}
